@@ -168,15 +168,35 @@ func (e *Exec) Notify(kind string, sync bool) error {
 // BuildBatch converts a model batch into a moss batch.
 func (e *Exec) BuildBatch(mb *model.Batch) (moss.Batch, error) {
 	ops, bytes := batchSize(mb)
+	unhinted := !e.Cfg.Alloc && !hasAlloc(mb) && e.World.N()%3 == 1
+	if unhinted {
+		// every third batch is created without size hints, as applications
+		// that do not know their batch sizes do
+		ops, bytes = 0, 0
+	}
 	b, err := e.Coll.NewBatch(ops, bytes)
 	if err != nil {
 		return nil, err
 	}
-	if err := fillBatch(b, mb, e.Cfg.Alloc); err != nil {
+	if err := fillBatch(b, mb, e.Cfg.Alloc, unhinted); err != nil {
 		b.Close()
 		return nil, err
 	}
 	return b, nil
+}
+
+func hasAlloc(mb *model.Batch) bool {
+	for _, op := range mb.Ops {
+		if op.Alloc {
+			return true
+		}
+	}
+	for _, c := range mb.Children {
+		if hasAlloc(c.B) {
+			return true
+		}
+	}
+	return false
 }
 
 func batchSize(mb *model.Batch) (int, int) {
@@ -187,7 +207,7 @@ func batchSize(mb *model.Batch) (int, int) {
 	return n, sz
 }
 
-func fillBatch(b moss.Batch, mb *model.Batch, alloc bool) error {
+func fillBatch(b moss.Batch, mb *model.Batch, alloc bool, unhinted bool) error {
 	for _, op := range mb.Ops {
 		useAlloc := alloc || op.Alloc
 		var err error
@@ -230,11 +250,14 @@ func fillBatch(b moss.Batch, mb *model.Batch, alloc bool) error {
 	}
 	for _, cb := range mb.Children {
 		n, sz := batchSize(cb.B)
+		if unhinted {
+			n, sz = 0, 0
+		}
 		child, err := b.NewChildCollectionBatch(cb.Name, moss.BatchOptions{TotalOps: n, TotalKeyValBytes: sz})
 		if err != nil {
 			return fmt.Errorf("NewChildCollectionBatch(%q): %v", cb.Name, err)
 		}
-		if err := fillBatch(child, cb.B, alloc); err != nil {
+		if err := fillBatch(child, cb.B, alloc, unhinted); err != nil {
 			return err
 		}
 	}
